@@ -32,6 +32,12 @@ class Spec(CheckSpec):
         # shipped scenarios first (fixed fraction of every profile that uses E1)
         shipped = [("data_manipulation.yaml", 40, 60), ("data_manipulation_marl.yaml", 40, 60), ("uc7_config.yaml", 25, 40), ("uc7_config_tap003.yaml", 25, 40)]
         reps = 1 if tier == "quick" else 6
+        # the shipped UC2 scenario several times: its red agent attacks at step 25 +- 5, blue plays uniformly before
+        for k in range(10 if tier == "quick" else 80):
+            yield {"seed": base_seed * 1000003 + 905000 + k, "shipped": "data_manipulation.yaml", "max_episode_length": 60, "n_ops": 64, "monitors": mons, "op_mix": {"step": 0.93, "reset": 0.03, "fault": 0.04}}
+        for k in range(4 if tier == "quick" else 40):
+            s = base_seed * 1000003 + 906000 + k
+            yield {"seed": s, "shipped": "uc7_config.yaml" if k % 2 else "uc7_config_tap003.yaml", "tap_variation": s, "max_episode_length": 60, "n_ops": 60, "monitors": mons, "op_mix": {"step": 0.93, "reset": 0.02, "fault": 0.05}}
         for rep in range(reps):
             for name, mel, nops in shipped:
                 yield {"seed": base_seed * 1000003 + 900000 + rep * 10 + len(name), "shipped": name, "max_episode_length": mel, "n_ops": nops, "monitors": mons, "op_mix": {"step": 0.9, "reset": 0.04, "fault": 0.06}}
